@@ -2,8 +2,10 @@
 package main
 
 import (
+	"encoding/json"
 	"flag"
 	"fmt"
+	"io/ioutil"
 	"os"
 	"time"
 
@@ -85,6 +87,16 @@ func main() {
 		res.Coverage["related_mismatches_other_properties"] = rel
 	}
 	core.WriteEvidence(env, res.Level, res.Coverage, res.Assumptions, viol)
+	if env.Replay != "" {
+		// a replay re-executes the check that produced the file with its seed and tier and says
+		// whether the recorded violation (same key) came back
+		var rf struct {
+			Key string `json:"key"`
+		}
+		if b, err := ioutil.ReadFile(env.Replay); err == nil && json.Unmarshal(b, &rf) == nil {
+			fmt.Printf("replay of %s: recorded violation %q reproduced: %v\n", env.Replay, rf.Key, rep.Has(rf.Key))
+		}
+	}
 	fmt.Printf("check %s %s seed=%d: exit %d after %.1fs\n", env.Prop, env.Tier, env.Seed, code, time.Since(env.Start).Seconds())
 	os.Exit(code)
 }
